@@ -22,6 +22,7 @@ package effects
 
 import (
 	"fmt"
+	"go/constant"
 	"go/token"
 	"go/types"
 	"sort"
@@ -834,9 +835,14 @@ func (a *Analysis) analyseFunc(fn *ssa.Function) *fstate {
 			}
 		}
 	}
+	// blocks that no execution reaches (`if debug { … }` with debug a false constant) have no effects
+	live := LiveBlocks(fn)
 	for iter := 0; iter < 40; iter++ {
 		st.changed = false
 		for _, b := range fn.Blocks {
+			if !live[b] {
+				continue
+			}
 			for _, ins := range b.Instrs {
 				st.transfer(ins)
 			}
@@ -847,6 +853,42 @@ func (a *Analysis) analyseFunc(fn *ssa.Function) *fstate {
 	}
 	st.finish()
 	return st
+}
+
+// LiveBlocks: the blocks reachable from the entry when a branch on a boolean constant takes only the side the
+// constant selects (go/ssa keeps both arms of `if false { … }`).
+func LiveBlocks(fn *ssa.Function) map[*ssa.BasicBlock]bool {
+	live := map[*ssa.BasicBlock]bool{}
+	if len(fn.Blocks) == 0 {
+		return live
+	}
+	var walk func(b *ssa.BasicBlock)
+	walk = func(b *ssa.BasicBlock) {
+		if live[b] {
+			return
+		}
+		live[b] = true
+		if len(b.Instrs) > 0 {
+			if iff, ok := b.Instrs[len(b.Instrs)-1].(*ssa.If); ok && len(b.Succs) == 2 {
+				if c, ok := iff.Cond.(*ssa.Const); ok && c.Value != nil && c.Value.Kind() == constant.Bool {
+					if constant.BoolVal(c.Value) {
+						walk(b.Succs[0])
+					} else {
+						walk(b.Succs[1])
+					}
+					return
+				}
+			}
+		}
+		for _, s := range b.Succs {
+			walk(s)
+		}
+	}
+	walk(fn.Blocks[0])
+	if fn.Recover != nil {
+		walk(fn.Recover)
+	}
+	return live
 }
 
 func (st *fstate) transfer(ins ssa.Instruction) {
